@@ -486,3 +486,16 @@ package cgroup
 //@   arith int
 //@   requires ct != nil
 //@   ensures result.1 == nil ==> result.0 != nil
+
+// controller sets: Intersect keeps a controller only if both sides have it; Names lists at most the five known names
+//@ func pkg/cgroup.(*Controllers).Intersect props C20
+//@   arith int
+//@   requires c != nil && o != nil
+//@   assigns c.CPU, c.CPUSet, c.CPUAcct, c.Memory, c.Pids
+//@   ensures c.CPU == (old(c.CPU) && old(o.CPU)) && c.CPUSet == (old(c.CPUSet) && old(o.CPUSet)) && c.CPUAcct == (old(c.CPUAcct) && old(o.CPUAcct)) && c.Memory == (old(c.Memory) && old(o.Memory)) && c.Pids == (old(c.Pids) && old(o.Pids))
+//@ func pkg/cgroup.(*Controllers).Names props C20
+//@   arith int
+//@   requires c != nil
+//@   assigns nothing
+//@   ensures len(result) <= 5
+//@   loop 0: invariant -1 <= rangeindex && rangeindex < 5 && len(slicelit) == 5 && len(names) <= rangeindex + 1 && cap(names) == 5 && fresh(names)
